@@ -88,6 +88,16 @@ structure FileOK (bf : BranchFile) : Prop where
   firstIs : bf.offset = 1 → ∀ d, bf.headers.head? = some d → d.hdr = bf.first
   side : bf.parentHeight ≠ -1 → bf.offset = 1
 
+/-- what the read API needs of a tracked branch, whatever its parent pointer and wherever it came from. -/
+structure BrCore (b : Branch) : Prop where
+  nonempty : b.headers ≠ []
+  linked : InternallyLinked b.headers
+  ph : -1 ≤ b.parentHeight
+  off : 1 ≤ b.offset
+  side : b.parentHeight ≠ -1 → b.offset = 1 ∧ ∀ d, b.headers.head? = some d → d.hdr = b.first
+  mapSound : ∀ id h, b.hmap.get? id = some h →
+    ∃ d, getI b.headers (h - b.parentHeight - b.offset) = some d ∧ d.hdr.id = id
+
 /-- a loaded branch, whatever its parent pointer. -/
 structure BrOK (st : Store) (b : Branch) : Prop where
   nonempty : b.headers ≠ []
@@ -99,6 +109,9 @@ structure BrOK (st : Store) (b : Branch) : Prop where
     ∃ d, getI b.headers (h - b.parentHeight - b.offset) = some d ∧ d.hdr.id = id
   fromFile : ∃ k bf n, List.lookup k st.branches = some bf ∧ b.headers = bf.headers.drop n ∧
     b.parentHeight = bf.parentHeight ∧ b.offset = bf.offset + (n : Int) ∧ ∀ l, st.index = some l → k ∈ l
+
+theorem BrOK.core {st : Store} {b : Branch} (h : BrOK st b) : BrCore b :=
+  ⟨h.nonempty, h.linked, h.ph, h.off, h.side, h.mapSound⟩
 
 theorem brOK_of_file (st : Store) (k : Nat) (bf : BranchFile) (hk : List.lookup k st.branches = some bf)
     (hf : FileOK bf) (hki : ∀ l, st.index = some l → k ∈ l) : BrOK st (branchOfFile bf) := by
@@ -441,8 +454,10 @@ structure LinkInv (st : Store) (r : Repo) (todo : List Nat) : Prop where
 theorem br_of_lt (r : Repo) (bi : Nat) (h : bi < r.arena.length) : r.arena[bi]? = some (r.br bi) := by
   unfold Repo.br; rw [List.getElem?_eq_getElem h]; rfl
 
-/-- the branch `Link` finds for a previous hash holds that hash itself. -/
-theorem link_owner (st : Store) (r : Repo) (todo : List Nat) (hi : LinkInv st r todo) (id : Nat) (c : Nat) (h : Int)
+/-- the first listed branch whose ancestry "finds" a hash holds that hash itself: its parent precedes it
+    in the list and would have answered first. -/
+theorem find_owner (r : Repo) (hlk : Linked r.arena r.branches) (hv : ∀ bi ∈ r.branches, bi < r.arena.length)
+    (id : Nat) (c : Nat) (h : Int)
     (hf : r.branches.findSome? (fun c => (r.find c id).map (fun h => (c, h))) = some (c, h)) :
     c ∈ r.branches ∧ ∃ cb, r.arena[c]? = some cb ∧ cb.hmap.get? id = some h := by
   obtain ⟨l1, a, l2, hl, hfa, hnone⟩ := List.findSome?_eq_some_iff.mp hf
@@ -454,7 +469,7 @@ theorem link_owner (st : Store) (r : Repo) (todo : List Nat) (hi : LinkInv st r 
     obtain ⟨rfl, rfl⟩ := hfa
     have hmem : a ∈ r.branches := by rw [hl]; simp
     refine ⟨hmem, ?_⟩
-    have hlt := hi.valid a hmem
+    have hlt := hv a hmem
     refine ⟨r.br a, br_of_lt r a hlt, ?_⟩
     unfold Repo.find Repo.fuel at hfind
     simp only [bfind, br_of_lt r a hlt] at hfind
@@ -470,7 +485,7 @@ theorem link_owner (st : Store) (r : Repo) (todo : List Nat) (hi : LinkInv st r 
         rw [hp] at hfind
         simp only at hfind
         have hpre : Linked r.arena (l1 ++ [a]) :=
-          Linked.prefix r.arena r.branches hi.linked (l1 ++ [a]) l2 (by rw [hl]; simp)
+          Linked.prefix r.arena r.branches hlk (l1 ++ [a]) l2 (by rw [hl]; simp)
         have hpm := Linked.parent_before r.arena l1 a hpre (r.br a) (br_of_lt r a hlt) p hp
         have hn := hnone p hpm
         have : r.find p id = some h' := by
@@ -478,6 +493,11 @@ theorem link_owner (st : Store) (r : Repo) (todo : List Nat) (hi : LinkInv st r 
           exact bfind_mono r.arena _ _ p id h' hfind (by omega)
         rw [this] at hn
         cases hn
+
+theorem link_owner (st : Store) (r : Repo) (todo : List Nat) (hi : LinkInv st r todo) (id : Nat) (c : Nat) (h : Int)
+    (hf : r.branches.findSome? (fun c => (r.find c id).map (fun h => (c, h))) = some (c, h)) :
+    c ∈ r.branches ∧ ∃ cb, r.arena[c]? = some cb ∧ cb.hmap.get? id = some h :=
+  find_owner r hi.linked hi.valid id c h hf
 
 theorem loadLinkStep_inv (st : Store) (r : Repo) (bi : Nat) (rest : List Nat) (hi : LinkInv st r (bi :: rest)) :
     LinkInv st (loadLinkStep r bi) rest ∧
@@ -596,10 +616,10 @@ theorem loadLink_fold (st : Store) : ∀ (todo : List Nat) (r : Repo), LinkInv s
 def FromStore (st : Store) (d : HData) : Prop :=
   ∃ k bf, List.lookup k st.branches = some bf ∧ d ∈ bf.headers
 
-structure ChainFacts (st : Store) (ar : Arena) (fuel : Nat) (bi : Nat) (b : Branch) : Prop where
+structure ChainFacts (P : HData → Prop) (ar : Arena) (fuel : Nat) (bi : Nat) (b : Branch) : Prop where
   cover : ∃ lo : Int, 0 ≤ lo ∧ lo ≤ b.parentHeight + b.offset ∧
     (∃ (ri : Nat) (rb : Branch), ar[ri]? = some rb ∧ rb.parentHeight = -1 ∧ lo = rb.parentHeight + rb.offset) ∧
-    ∀ h, lo ≤ h → h ≤ b.height → ∃ d, atHeight ar fuel bi h = some d ∧ FromStore st d
+    ∀ h, lo ≤ h → h ≤ b.height → ∃ d, atHeight ar fuel bi h = some d ∧ P d
   linked : ∀ h d d', atHeight ar fuel bi h = some d → atHeight ar fuel bi (h - 1) = some d' → d.hdr.prev = d'.hdr.id
 
 theorem getI_some_range {α : Type} (l : List α) (i : Int) (a : α) (h : getI l i = some a) : 0 ≤ i ∧ i < l.length := by
@@ -632,27 +652,28 @@ theorem atHeight_parent_some (ar : Arena) (fuel bi : Nat) (b : Branch) (hb : ar[
     (hh : ¬ h > b.parentHeight) (p : Nat) (hp : b.parent = some p) : atHeight ar (fuel + 1) bi h = atHeight ar fuel p h := by
   simp only [atHeight, hb, hh, ↓reduceIte, hp]
 
-theorem linked_chain (st : Store) (ar : Arena) (hok : ∀ (bi : Nat) (b : Branch), ar[bi]? = some b → BrOK st b)
-    (bs : List Nat) (hl : Linked ar bs) :
-    ∀ bi ∈ bs, ∀ fuel, bs.length ≤ fuel → ∀ b, ar[bi]? = some b → ChainFacts st ar fuel bi b := by
+theorem linked_chain (P : HData → Prop) (ar : Arena) (bs : List Nat) (hl : Linked ar bs) :
+    (∀ bi ∈ bs, ∀ b, ar[bi]? = some b → BrCore b ∧ ∀ d ∈ b.headers, P d) →
+    ∀ bi ∈ bs, ∀ fuel, bs.length ≤ fuel → ∀ b, ar[bi]? = some b → ChainFacts P ar fuel bi b := by
   induction hl with
-  | nil => intro bi hbi; cases hbi
+  | nil => intro _ bi hbi; cases hbi
   | root bs bi b _ hn hb hp hr ih =>
-    intro x hx fuel hfuel xb hxb
+    intro hok x hx fuel hfuel xb hxb
+    have ih := ih (fun y hy => hok y (by simp [hy]))
     simp only [List.mem_append, List.mem_singleton] at hx
     simp only [List.length_append, List.length_singleton] at hfuel
     rcases hx with hx | rfl
     · exact ih x hx fuel (by omega) xb hxb
     · rw [hb] at hxb; cases hxb
       obtain ⟨g, rfl⟩ : ∃ g, fuel = g + 1 := ⟨fuel - 1, by omega⟩
-      have ho := hok x b hb
+      obtain ⟨ho, hPo⟩ := hok x (by simp) b hb
       refine ⟨⟨b.parentHeight + b.offset, by have := ho.off; omega, Int.le_refl _, ⟨x, b, hb, hr, rfl⟩, ?_⟩, ?_⟩
       · intro h h1 h2
         have hgt : h > b.parentHeight := by have := ho.off; omega
         rw [atHeight_own ar g x b hb h hgt]
         unfold Branch.height at h2
         obtain ⟨a, ha, hm⟩ := getI_defined b.headers (h - b.parentHeight - b.offset) (by omega) (by omega)
-        exact ⟨a, ha, own_fromStore st b ho a hm⟩
+        exact ⟨a, ha, hPo a hm⟩
       · intro h d d' h1 h2
         by_cases hgt : h - 1 > b.parentHeight
         · rw [atHeight_own ar g x b hb h (by omega)] at h1
@@ -663,15 +684,16 @@ theorem linked_chain (st : Store) (ar : Arena) (hok : ∀ (bi : Nat) (b : Branch
         · rw [atHeight_parent_none ar g x b hb (h - 1) hgt hp] at h2
           cases h2
   | child bs bi b p pb d0 _ hn hb hne hp hpm hpb hd hid ih =>
-    intro x hx fuel hfuel xb hxb
+    intro hok x hx fuel hfuel xb hxb
+    have ih := ih (fun y hy => hok y (by simp [hy]))
     simp only [List.mem_append, List.mem_singleton] at hx
     simp only [List.length_append, List.length_singleton] at hfuel
     rcases hx with hx | rfl
     · exact ih x hx fuel (by omega) xb hxb
     · rw [hb] at hxb; cases hxb
       obtain ⟨g, rfl⟩ : ∃ g, fuel = g + 1 := ⟨fuel - 1, by omega⟩
-      have ho := hok x b hb
-      have hpo := hok p pb hpb
+      obtain ⟨ho, hPo⟩ := hok x (by simp) b hb
+      have hpo := (hok p (by simp [hpm]) pb hpb).1
       have hoff := (ho.side hne).1
       have hfirst := (ho.side hne).2
       obtain ⟨⟨lo, hlo0, hlop, hrootw, hcov⟩, hlk⟩ := ih p hpm g (by omega) pb hpb
@@ -689,7 +711,7 @@ theorem linked_chain (st : Store) (ar : Arena) (hok : ∀ (bi : Nat) (b : Branch
         · rw [atHeight_own ar g x b hb h hgt]
           unfold Branch.height at h2
           obtain ⟨a, ha, hm⟩ := getI_defined b.headers (h - b.parentHeight - b.offset) (by omega) (by omega)
-          exact ⟨a, ha, own_fromStore st b ho a hm⟩
+          exact ⟨a, ha, hPo a hm⟩
         · rw [atHeight_parent_some ar g x b hb h hgt p hp]
           apply hcov h h1
           unfold Branch.height; omega
@@ -957,7 +979,9 @@ theorem loaded_best_chain (st : Store) (r : Repo) (h : LoadedOK st r) :
       (∀ x, lo ≤ x → x ≤ tipHeight r → ∃ d, r.at r.longest x = some d ∧ FromStore st d) ∧
       (∀ x d d', r.at r.longest x = some d → r.at r.longest (x - 1) = some d' → d.hdr.prev = d'.hdr.id) := by
   have hlt := h.valid r.longest h.tip
-  have hc := linked_chain st r.arena h.ok r.branches h.linked r.longest h.tip r.fuel
+  have hc := linked_chain (FromStore st) r.arena r.branches h.linked
+    (fun bi _ b hb => ⟨(h.ok bi b hb).core, fun d hd => own_fromStore st b (h.ok bi b hb) d hd⟩)
+    r.longest h.tip r.fuel
     (by unfold Repo.fuel; have := h.len; omega) (r.br r.longest) (br_of_lt r _ hlt)
   obtain ⟨⟨lo, h0, _, hroot, hcov⟩, hlk⟩ := hc
   exact ⟨lo, h0, hroot, hcov, hlk⟩
